@@ -529,6 +529,7 @@ const muxFrameDomainDoc = "frame data that starts with 'ALPH' but is shorter tha
 
 func runC14(c *Ctx) {
 	c.Rule("X1 any-scan shape: a boolean muxer function that returns true from inside a loop over the frames and false after it returns nothing but true inside the loop")
+	c.Rule("W5 no append to input: no append in the container writers (mux writer side, encode.go) extends a byte slice that comes from a parameter or from a field (the caller's frame data and metadata are stored in fields): only buffers the function created itself are extended")
 	c.Rule("R3 walk-to-end: a chunk walk of the demuxer never returns successfully from inside the loop")
 	c.Rule("R1/R2 (S7 loop facts): every chunk-walking loop of mux.Demuxer and container.Parser (a loop that reads a FourCC at its cursor and a 32-bit size S four bytes further) advances its cursor by 8 + S + (S odd ? 1 : 0) in every input class, except where the walker itself found that the pad byte lies beyond the data; every slice taken at cursor+8 with a variable length has length exactly S")
 	c.Rule("W-layout (S7): each container writer is executed symbolically for every class of inputs (presence and parity of every blob, frame payload shapes, still/animated) - the output is obtained as a sequence of pieces with symbolic lengths; W1: the RIFF size field equals the bytes that follow; W2: the pieces parse as complete chunks (declared size = payload written, pad byte iff odd, ANMF = 16-byte header + complete sub-chunks); W3: chunk order, VP8X flags vs chunks written, metadata payloads are whole caller blobs")
@@ -552,6 +553,7 @@ func runC14(c *Ctx) {
 			return strings.HasPrefix(f, "mux/demux.go") || strings.HasPrefix(f, "mux/chunk.go") || strings.HasPrefix(f, "internal/container/")
 		}
 		anyScanShape(c, p)
+		c14NoAppendToInput(c, p)
 		before := c.Count("R1-advance")
 		checkReaders(c, p, "mux", readerFile, max)
 		checkReaders(c, p, "internal/container", readerFile, max)
